@@ -186,12 +186,14 @@ pub struct Evidence {
 
 pub fn write_evidence(opts: &Opts, start: Instant, e: Evidence) {
     let wall = start.elapsed().as_secs_f64();
+    let mut coverage = e.coverage;
+    coverage["known_findings_reported"] = json!(KNOWN_SEEN.with(|s| s.borrow().clone()));
     let v = json!({
         "property_id": e.property,
         "tier": opts.tier,
         "seed": opts.seed,
         "level": e.level,
-        "coverage": e.coverage,
+        "coverage": coverage,
         "assumptions": e.assumptions,
         "wall_s": (wall * 1000.0).round() / 1000.0,
         "violations": e.violations,
@@ -249,6 +251,11 @@ pub struct Finding {
 }
 
 /// Print KNOWN-FINDING / VIOLATION lines, write replay files, return the process exit code.
+thread_local! {
+    /// signatures of the known findings the last `report` call matched (for the evidence file)
+    pub static KNOWN_SEEN: std::cell::RefCell<Vec<String>> = const { std::cell::RefCell::new(Vec::new()) };
+}
+
 pub fn report(property: &str, findings: &[Finding]) -> (i32, usize) {
     let known = load_known();
     let mut seen_known: Vec<String> = Vec::new();
@@ -259,6 +266,7 @@ pub fn report(property: &str, findings: &[Finding]) -> (i32, usize) {
             if !seen_known.contains(&k.signature) {
                 seen_known.push(k.signature.clone());
                 println!("KNOWN-FINDING: property={} {}", property, k.what);
+                KNOWN_SEEN.with(|s| s.borrow_mut().push(k.signature.clone()));
             }
             continue;
         }
